@@ -14,6 +14,8 @@ type Plan struct {
 	Router  *RouterPlan  `json:"router,omitempty"`
 	Xport   *XportPlan   `json:"xport,omitempty"`
 	Limiter *LimiterPlan `json:"limiter,omitempty"`
+	Addr    []AddrCase   `json:"addr,omitempty"`
+	Auth    []AuthCase   `json:"auth,omitempty"`
 
 	// Expect, when set by a seeded-defect demonstration or a known finding,
 	// is informational only.
@@ -285,4 +287,27 @@ type LimEvent struct {
 	AtUs int64  `json:"at_us"`
 	Addr string `json:"addr"`
 	N    int    `json:"n"`
+}
+
+// ---- C17 (a): address forms ----
+
+// AddrCase is one upstream address form, described structurally so that the
+// expected dial target does not come from re-parsing the string.
+type AddrCase struct {
+	Idx      int    `json:"idx"`
+	Scheme   string `json:"scheme"`    // "" udp tcp tcp+pipeline tls tls+pipeline https http
+	HostForm string `json:"host_form"` // ip4 | ip6 | ip6upper | ip6long | name
+	Port     int    `json:"port"`      // 0 = absent
+	DialForm string `json:"dial_form"` // "" | ip4 | ip4port | ip6port | ip6bare | name | nameport | unix
+	DialPort int    `json:"dial_port"`
+}
+
+// ---- C17 (b): upstream authentication ----
+
+type AuthCase struct {
+	Idx     int    `json:"idx"`
+	Kind    string `json:"kind"`    // tls tls+pipeline https
+	Profile string `json:"profile"` // certificate the server presents
+	Option  string `json:"option"`  // ca | none | skip
+	ByName  bool   `json:"by_name"`
 }
